@@ -60,6 +60,9 @@ pub struct Scn {
     pub expect: Expect,
     /// live phase: complete packets arrive with gaps below this many seconds (checked on measured times)
     pub live_gap: Option<f64>,
+    /// before the timeline starts the connection goes through one write back-pressure episode
+    /// (the application sends more than the write buffer holds while the peer does not read)
+    pub bp_first: bool,
 }
 
 pub struct Outc {
@@ -97,6 +100,21 @@ pub async fn run_scn(s: &Scn) -> Outc {
         op.start();
         c.settle().await;
         pending_send = Some((op, ack_ms, false));
+    }
+    if s.bp_first {
+        let sink = c.sink();
+        c.peer.set_budget(0);
+        for i in 0..3u8 {
+            let _ = sink.send_qos0(&crate::sink::PubSpec::new("c/big", vec![i; 700]));
+            c.settle().await;
+        }
+        c.peer.unlimited();
+        c.settle().await;
+        let on = app.count(|e| matches!(e, Ev::CtlEnter { what, .. } if what == "wr(true)"));
+        let off = app.count(|e| matches!(e, Ev::CtlEnter { what, .. } if what == "wr(false)"));
+        if on == 0 || off == 0 {
+            o.inconclusive = Some(format!("harness: no write back-pressure episode ({on} on / {off} off): {}", s.name));
+        }
     }
     let t0 = Instant::now();
     let secs = |t: Instant| t.duration_since(t0).as_secs_f64();
@@ -311,14 +329,14 @@ pub fn scenarios(quick: bool, rng: &mut Rng) -> Vec<Scn> {
                 continue;
             }
             let t = ka_timeout(k);
-            v.push(Scn { name: format!("{} idle, client keep-alive {k}", role.name()), role, cfg: base(&|c| c.keep_alive = k), raw: false, busy: false, client_send_ack_ms: None, timeline: vec![], observe_ms: ((t + LATE + 1.0) * 1000.0) as u64, expect: Expect::KeepAlive { timeout: t }, live_gap: None });
+            v.push(Scn { name: format!("{} idle, client keep-alive {k}", role.name()), role, cfg: base(&|c| c.keep_alive = k), raw: false, busy: false, client_send_ack_ms: None, timeline: vec![], observe_ms: ((t + LATE + 1.0) * 1000.0) as u64, expect: Expect::KeepAlive { timeout: t }, bp_first: false, live_gap: None });
         }
         // server override
         for x in [1u16, 2, 3] {
             if quick && x != 2 {
                 continue;
             }
-            v.push(Scn { name: format!("{} idle, client keep-alive 10, handshake imposes {x}", role.name()), role, cfg: base(&|c| { c.keep_alive = 10; c.hs.keepalive = Some(x); }), raw: false, busy: false, client_send_ack_ms: None, timeline: vec![], observe_ms: ((x as f64 + LATE + 1.0) * 1000.0) as u64, expect: Expect::KeepAlive { timeout: x as f64 }, live_gap: None });
+            v.push(Scn { name: format!("{} idle, client keep-alive 10, handshake imposes {x}", role.name()), role, cfg: base(&|c| { c.keep_alive = 10; c.hs.keepalive = Some(x); }), raw: false, busy: false, client_send_ack_ms: None, timeline: vec![], observe_ms: ((x as f64 + LATE + 1.0) * 1000.0) as u64, expect: Expect::KeepAlive { timeout: x as f64 }, bp_first: false, live_gap: None });
         }
         // very large client values: 1.5 x does not fit into 16 bits, the period saturates (it
         // must neither wrap around to a few seconds nor switch the timer off)
@@ -326,18 +344,30 @@ pub fn scenarios(quick: bool, rng: &mut Rng) -> Vec<Scn> {
             if quick && (k == 43_691 || k == 43_693) {
                 continue;
             }
-            v.push(Scn { name: format!("{} idle, client keep-alive {k} (1.5x overflows 16 bits)", role.name()), role, cfg: base(&|c| c.keep_alive = k), raw: false, busy: false, client_send_ack_ms: None, timeline: vec![], observe_ms: 5500, expect: Expect::Alive, live_gap: None });
+            v.push(Scn { name: format!("{} idle, client keep-alive {k} (1.5x overflows 16 bits)", role.name()), role, cfg: base(&|c| c.keep_alive = k), raw: false, busy: false, client_send_ack_ms: None, timeline: vec![], observe_ms: 5500, expect: Expect::Alive, bp_first: false, live_gap: None });
         }
         // the handshake service switches the keep-alive timer off (0) on a listener whose I/O
         // configuration carries a keep-alive of its own: what the handshake says is in force
         // (MQTT 5: HandshakeAck::keep_alive() does not take 0)
         if role == Role::V3Server {
-            v.push(Scn { name: format!("{} idle, client keep-alive 1, handshake switches keep-alive off, io-level keep-alive 2", role.name()), role, cfg: base(&|c| { c.keep_alive = 1; c.hs.keepalive = Some(0); c.io_keepalive = Some(2); }), raw: false, busy: false, client_send_ack_ms: None, timeline: vec![], observe_ms: 6000, expect: Expect::Alive, live_gap: None });
+            v.push(Scn { name: format!("{} idle, client keep-alive 1, handshake switches keep-alive off, io-level keep-alive 2", role.name()), role, cfg: base(&|c| { c.keep_alive = 1; c.hs.keepalive = Some(0); c.io_keepalive = Some(2); }), raw: false, busy: false, client_send_ack_ms: None, timeline: vec![], observe_ms: 6000, expect: Expect::Alive, bp_first: false, live_gap: None });
         }
         // ... and the other way round: the negotiated value, not the I/O layer's, is in force
-        v.push(Scn { name: format!("{} idle, client keep-alive 2, io-level keep-alive 20", role.name()), role, cfg: base(&|c| { c.keep_alive = 2; c.io_keepalive = Some(20); }), raw: false, busy: false, client_send_ack_ms: None, timeline: vec![], observe_ms: ((3.0 + LATE + 1.0) * 1000.0) as u64, expect: Expect::KeepAlive { timeout: 3.0 }, live_gap: None });
+        v.push(Scn { name: format!("{} idle, client keep-alive 2, io-level keep-alive 20", role.name()), role, cfg: base(&|c| { c.keep_alive = 2; c.io_keepalive = Some(20); }), raw: false, busy: false, client_send_ack_ms: None, timeline: vec![], observe_ms: ((3.0 + LATE + 1.0) * 1000.0) as u64, expect: Expect::KeepAlive { timeout: 3.0 }, bp_first: false, live_gap: None });
+        // an earlier write back-pressure episode changes nothing about how the idle connection ends
+        v.push(Scn { name: format!("{} idle after a write back-pressure episode, client keep-alive 2", role.name()), role, cfg: base(&|c| { c.keep_alive = 2; c.write_buf = Some((256, 64)); }), raw: false, busy: false, client_send_ack_ms: None, timeline: vec![], observe_ms: ((3.0 + LATE + 1.0) * 1000.0) as u64, expect: Expect::KeepAlive { timeout: 3.0 }, bp_first: true, live_gap: None });
+        // one complete PINGREQ per second, but every segment ends with the first byte of the next
+        // packet: packet boundaries never coincide with segment boundaries
+        {
+            let ping = refcodec::encode(ver, &R::PingReq).unwrap();
+            let mut tl = vec![(200u64, Act::Send { bytes: ping[..1].to_vec(), completes: false })];
+            for i in 1..=6u64 {
+                tl.push((200 + i * 1000, Act::Send { bytes: vec![ping[1], ping[0]], completes: true }));
+            }
+            v.push(Scn { name: format!("{} handshake imposes 2, a PINGREQ every second in segments that straddle packet boundaries", role.name()), role, cfg: base(&|c| { c.keep_alive = 10; c.hs.keepalive = Some(2); }), raw: false, busy: false, client_send_ack_ms: None, timeline: tl, observe_ms: 6900, expect: Expect::Alive, bp_first: false, live_gap: Some(2.0 - EARLY) });
+        }
         // keep-alive 0: the 30 s default does not fire within the observation
-        v.push(Scn { name: format!("{} idle, client keep-alive 0", role.name()), role, cfg: base(&|c| c.keep_alive = 0), raw: false, busy: false, client_send_ack_ms: None, timeline: vec![], observe_ms: 6000, expect: Expect::Alive, live_gap: None });
+        v.push(Scn { name: format!("{} idle, client keep-alive 0", role.name()), role, cfg: base(&|c| c.keep_alive = 0), raw: false, busy: false, client_send_ack_ms: None, timeline: vec![], observe_ms: 6000, expect: Expect::Alive, bp_first: false, live_gap: None });
         // live peers: keep-alive 2 (3 s), a complete packet every 1.5 s, whole or fragmented, idle or busy handlers
         for (frags, busy) in [(1usize, false), (3, false), (1, true), (3, true)] {
             if quick && frags == 3 && busy {
@@ -356,6 +386,7 @@ pub fn scenarios(quick: bool, rng: &mut Rng) -> Vec<Scn> {
                 timeline: tl,
                 observe_ms: last + ((3.0 + LATE + 0.5) * 1000.0) as u64,
                 expect: Expect::KeepAlive { timeout: 3.0 },
+                bp_first: false,
                 live_gap: Some(3.0 - EARLY),
             });
         }
@@ -373,6 +404,7 @@ pub fn scenarios(quick: bool, rng: &mut Rng) -> Vec<Scn> {
                 timeline: tl,
                 observe_ms: last + 800,
                 expect: Expect::Alive,
+                bp_first: false,
                 live_gap: Some(3.0 - EARLY),
             });
         }
@@ -383,20 +415,20 @@ pub fn scenarios(quick: bool, rng: &mut Rng) -> Vec<Scn> {
             }
             let tl = traffic(ver, 300, n, 700, 1, 0);
             let last = tl.last().unwrap().0;
-            v.push(Scn { name: format!("{} override 2, {n} packet(s) then silence", role.name()), role, cfg: base(&|c| { c.keep_alive = 10; c.hs.keepalive = Some(2); }), raw: false, busy: false, client_send_ack_ms: None, timeline: tl, observe_ms: last + ((2.0 + LATE + 0.5) * 1000.0) as u64, expect: Expect::KeepAlive { timeout: 2.0 }, live_gap: Some(2.0 - EARLY) });
+            v.push(Scn { name: format!("{} override 2, {n} packet(s) then silence", role.name()), role, cfg: base(&|c| { c.keep_alive = 10; c.hs.keepalive = Some(2); }), raw: false, busy: false, client_send_ack_ms: None, timeline: tl, observe_ms: last + ((2.0 + LATE + 0.5) * 1000.0) as u64, expect: Expect::KeepAlive { timeout: 2.0 }, bp_first: false, live_gap: Some(2.0 - EARLY) });
         }
         // long-lived live connection
         if !quick {
             let tl = traffic(ver, 300, 12, 1400, 2, 300);
             let last = tl.last().unwrap().0;
-            v.push(Scn { name: format!("{} keep-alive 2, 12 fragmented packets every 1.4s, stays alive", role.name()), role, cfg: base(&|c| c.keep_alive = 2), raw: false, busy: false, client_send_ack_ms: None, timeline: tl, observe_ms: last + 500, expect: Expect::Alive, live_gap: Some(3.0 - EARLY) });
+            v.push(Scn { name: format!("{} keep-alive 2, 12 fragmented packets every 1.4s, stays alive", role.name()), role, cfg: base(&|c| c.keep_alive = 2), raw: false, busy: false, client_send_ack_ms: None, timeline: tl, observe_ms: last + 500, expect: Expect::Alive, bp_first: false, live_gap: Some(3.0 - EARLY) });
         }
         // ---- frame read rate: period 1 s, at least 10 bytes per period, at most 4 s per frame
         // a frame the decoder needs completely (PUBLISH is handed over as soon as its header is in)
         let big = refcodec::encode(ver, &R::Subscribe { pid: 9, props: vec![], filters: (0..8).map(|i| (format!("r/{i}/{}", "x".repeat(44)), 0u8)).collect() }).unwrap();
         let rr = |mt: u16| base(&|c| { c.keep_alive = 30; c.frame_read_rate = Some((1, mt, 10)); });
         // stall right after the first bytes
-        v.push(Scn { name: format!("{} read rate: 8 bytes of a frame, then stall", role.name()), role, cfg: rr(4), raw: false, busy: false, client_send_ack_ms: None, timeline: vec![(300, Act::Send { bytes: big[..8].to_vec(), completes: false })], observe_ms: 300 + ((1.0 + LATE + 0.5) * 1000.0) as u64, expect: Expect::ReadTimeout { anchor: 0, after: 1.0 }, live_gap: None });
+        v.push(Scn { name: format!("{} read rate: 8 bytes of a frame, then stall", role.name()), role, cfg: rr(4), raw: false, busy: false, client_send_ack_ms: None, timeline: vec![(300, Act::Send { bytes: big[..8].to_vec(), completes: false })], observe_ms: 300 + ((1.0 + LATE + 0.5) * 1000.0) as u64, expect: Expect::ReadTimeout { anchor: 0, after: 1.0 }, bp_first: false, live_gap: None });
         // fast enough, completes within max_timeout
         {
             let frame = refcodec::encode(ver, &R::Subscribe { pid: 8, props: vec![], filters: (0..3).map(|i| (format!("ok/{i}/{}", "y".repeat(40)), 0u8)).collect() }).unwrap();
@@ -406,7 +438,7 @@ pub fn scenarios(quick: bool, rng: &mut Rng) -> Vec<Scn> {
                 tl.push((300 + j as u64 * 250, Act::Send { bytes: ch.to_vec(), completes: j + 1 == chunks.len() }));
             }
             let last = tl.last().unwrap().0;
-            v.push(Scn { name: format!("{} read rate: 60 B/s trickle completes in {:.1}s (< max 4s)", role.name(), (last - 300) as f64 / 1000.0), role, cfg: rr(4), raw: false, busy: false, client_send_ack_ms: None, timeline: tl, observe_ms: last + 1500, expect: Expect::Alive, live_gap: None });
+            v.push(Scn { name: format!("{} read rate: 60 B/s trickle completes in {:.1}s (< max 4s)", role.name(), (last - 300) as f64 / 1000.0), role, cfg: rr(4), raw: false, busy: false, client_send_ack_ms: None, timeline: tl, observe_ms: last + 1500, expect: Expect::Alive, bp_first: false, live_gap: None });
         }
         // too slow from the start: 4 bytes per second
         {
@@ -414,7 +446,7 @@ pub fn scenarios(quick: bool, rng: &mut Rng) -> Vec<Scn> {
             for j in 0..8u64 {
                 tl.push((300 + j * 500, Act::Send { bytes: big[(j * 2) as usize..(j * 2 + 2) as usize].to_vec(), completes: false }));
             }
-            v.push(Scn { name: format!("{} read rate: 4 B/s trickle (below 10 B/s)", role.name()), role, cfg: rr(4), raw: false, busy: false, client_send_ack_ms: None, timeline: tl, observe_ms: 300 + ((1.0 + LATE + 0.5) * 1000.0) as u64, expect: Expect::ReadTimeout { anchor: 0, after: 1.0 }, live_gap: None });
+            v.push(Scn { name: format!("{} read rate: 4 B/s trickle (below 10 B/s)", role.name()), role, cfg: rr(4), raw: false, busy: false, client_send_ack_ms: None, timeline: tl, observe_ms: 300 + ((1.0 + LATE + 0.5) * 1000.0) as u64, expect: Expect::ReadTimeout { anchor: 0, after: 1.0 }, bp_first: false, live_gap: None });
         }
         // fast for two periods, then stall: must be ended one period after the stall began
         for mt in [0u16, 6] {
@@ -427,7 +459,7 @@ pub fn scenarios(quick: bool, rng: &mut Rng) -> Vec<Scn> {
             }
             let last_idx = tl.len() - 1;
             let last = tl.last().unwrap().0;
-            v.push(Scn { name: format!("{} read rate (max {mt}): 60 B/s for 2 s, then stall", role.name()), role, cfg: rr(mt), raw: false, busy: false, client_send_ack_ms: None, timeline: tl, observe_ms: last + ((2.0 + LATE + 0.5) * 1000.0) as u64, expect: Expect::ReadTimeout { anchor: last_idx, after: 1.5 }, live_gap: None });
+            v.push(Scn { name: format!("{} read rate (max {mt}): 60 B/s for 2 s, then stall", role.name()), role, cfg: rr(mt), raw: false, busy: false, client_send_ack_ms: None, timeline: tl, observe_ms: last + ((2.0 + LATE + 0.5) * 1000.0) as u64, expect: Expect::ReadTimeout { anchor: last_idx, after: 1.5 }, bp_first: false, live_gap: None });
         }
         // fast but longer than max_timeout: ended by the cap
         if !quick {
@@ -435,7 +467,7 @@ pub fn scenarios(quick: bool, rng: &mut Rng) -> Vec<Scn> {
             for j in 0..26u64 {
                 tl.push((300 + j * 250, Act::Send { bytes: big[(j * 15) as usize..(j * 15 + 15) as usize].to_vec(), completes: false }));
             }
-            v.push(Scn { name: format!("{} read rate: fast trickle runs into max_timeout 3", role.name()), role, cfg: rr(3), raw: false, busy: false, client_send_ack_ms: None, timeline: tl, observe_ms: 300 + ((3.0 + LATE + 1.0) * 1000.0) as u64, expect: Expect::ReadTimeout { anchor: 0, after: 3.0 }, live_gap: None });
+            v.push(Scn { name: format!("{} read rate: fast trickle runs into max_timeout 3", role.name()), role, cfg: rr(3), raw: false, busy: false, client_send_ack_ms: None, timeline: tl, observe_ms: 300 + ((3.0 + LATE + 1.0) * 1000.0) as u64, expect: Expect::ReadTimeout { anchor: 0, after: 3.0 }, bp_first: false, live_gap: None });
         }
         // ---- connect timeout 2 s
         for (combined, what, bytes) in [(false, "nothing", 0usize), (false, "5 bytes of CONNECT", 5), (true, "nothing", 0), (true, "5 bytes of CONNECT", 5)] {
@@ -445,21 +477,21 @@ pub fn scenarios(quick: bool, rng: &mut Rng) -> Vec<Scn> {
             let cfg = base(&|c| { c.connect_timeout = 2; c.combined = combined; });
             let connect = refcodec::encode(ver, &cfg.peer_connect()).unwrap();
             let tl = if bytes > 0 { vec![(200, Act::Send { bytes: connect[..bytes].to_vec(), completes: false })] } else { vec![] };
-            v.push(Scn { name: format!("{}{} connect timeout 2: peer sends {what}", role.name(), if combined { " (combined)" } else { "" }), role, cfg, raw: true, busy: false, client_send_ack_ms: None, timeline: tl, observe_ms: ((2.0 + LATE + 0.5) * 1000.0) as u64, expect: Expect::ConnectTimeout { after: 2.0 }, live_gap: None });
+            v.push(Scn { name: format!("{}{} connect timeout 2: peer sends {what}", role.name(), if combined { " (combined)" } else { "" }), role, cfg, raw: true, busy: false, client_send_ack_ms: None, timeline: tl, observe_ms: ((2.0 + LATE + 0.5) * 1000.0) as u64, expect: Expect::ConnectTimeout { after: 2.0 }, bp_first: false, live_gap: None });
         }
         {
             // CONNECT completes in time: the connect timer must not fire later
             let cfg = base(&|c| { c.connect_timeout = 2; c.keep_alive = 0; });
             let connect = refcodec::encode(ver, &cfg.peer_connect()).unwrap();
             let tl = vec![(200, Act::Send { bytes: connect[..6].to_vec(), completes: false }), (1200, Act::Send { bytes: connect[6..].to_vec(), completes: true })];
-            v.push(Scn { name: format!("{} connect timeout 2: CONNECT completes after 1.2s, then idle", role.name()), role, cfg, raw: true, busy: false, client_send_ack_ms: None, timeline: tl, observe_ms: 5500, expect: Expect::Alive, live_gap: None });
+            v.push(Scn { name: format!("{} connect timeout 2: CONNECT completes after 1.2s, then idle", role.name()), role, cfg, raw: true, busy: false, client_send_ack_ms: None, timeline: tl, observe_ms: 5500, expect: Expect::Alive, bp_first: false, live_gap: None });
         }
     }
     for role in [Role::V3Client, Role::V5Client] {
         for k in [1u16, 2] {
             let mut cfg = ConnCfg::new(role);
             cfg.keep_alive = k;
-            v.push(Scn { name: format!("{} idle client, keep-alive {k}", role.name()), role, cfg, raw: false, busy: false, client_send_ack_ms: None, timeline: vec![], observe_ms: (3 * k as u64 + 2) * 1000, expect: Expect::ClientPings { period: k as f64 }, live_gap: None });
+            v.push(Scn { name: format!("{} idle client, keep-alive {k}", role.name()), role, cfg, raw: false, busy: false, client_send_ack_ms: None, timeline: vec![], observe_ms: (3 * k as u64 + 2) * 1000, expect: Expect::ClientPings { period: k as f64 }, bp_first: false, live_gap: None });
         }
         {
             // the send window (1) is full when the first keep-alive tick comes; the client must keep pinging
@@ -469,16 +501,16 @@ pub fn scenarios(quick: bool, rng: &mut Rng) -> Vec<Scn> {
             if role == Role::V5Client {
                 cfg.connack_props = vec![Prop::U16(0x21, 1)];
             }
-            v.push(Scn { name: format!("{} client keep-alive 2, send window full across the first tick", role.name()), role, cfg, raw: false, busy: false, client_send_ack_ms: Some(2600), timeline: vec![], observe_ms: 9000, expect: Expect::ClientPings { period: 2.0 }, live_gap: None });
+            v.push(Scn { name: format!("{} client keep-alive 2, send window full across the first tick", role.name()), role, cfg, raw: false, busy: false, client_send_ack_ms: Some(2600), timeline: vec![], observe_ms: 9000, expect: Expect::ClientPings { period: 2.0 }, bp_first: false, live_gap: None });
         }
         let mut cfg = ConnCfg::new(role);
         cfg.keep_alive = 0;
-        v.push(Scn { name: format!("{} idle client, keep-alive 0", role.name()), role, cfg, raw: false, busy: false, client_send_ack_ms: None, timeline: vec![], observe_ms: 4000, expect: Expect::NoPings, live_gap: None });
+        v.push(Scn { name: format!("{} idle client, keep-alive 0", role.name()), role, cfg, raw: false, busy: false, client_send_ack_ms: None, timeline: vec![], observe_ms: 4000, expect: Expect::NoPings, bp_first: false, live_gap: None });
         if role == Role::V5Client {
             let mut cfg = ConnCfg::new(role);
             cfg.keep_alive = 5;
             cfg.connack_props = vec![Prop::U16(0x13, 1)];
-            v.push(Scn { name: "v5/client keep-alive 5, server keep-alive 1 in CONNACK".into(), role, cfg, raw: false, busy: false, client_send_ack_ms: None, timeline: vec![], observe_ms: 5000, expect: Expect::ClientPings { period: 1.0 }, live_gap: None });
+            v.push(Scn { name: "v5/client keep-alive 5, server keep-alive 1 in CONNACK".into(), role, cfg, raw: false, busy: false, client_send_ack_ms: None, timeline: vec![], observe_ms: 5000, expect: Expect::ClientPings { period: 1.0 }, bp_first: false, live_gap: None });
         }
     }
     // thorough: random arrival patterns, keep-alive from the client (2 -> 3 s) or imposed (2 / 3 s)
@@ -527,6 +559,7 @@ pub fn scenarios(quick: bool, rng: &mut Rng) -> Vec<Scn> {
                 timeline: tl,
                 observe_ms: last + ((timeout + LATE + 0.5) * 1000.0) as u64,
                 expect: Expect::KeepAlive { timeout },
+                bp_first: false,
                 live_gap: Some(timeout - EARLY),
             });
         }
